@@ -97,6 +97,15 @@ def run(chk):
         if isinstance(n, ast.Subscript) and isinstance(n.ctx, ast.Store) and isinstance(n.slice, ast.Constant) and \
                 n.slice.value in ('parent', 'traversal_parent'):
             stores[n.slice.value] = forwarding.branch_context(n)
+        if isinstance(n, ast.Subscript) and isinstance(n.ctx, ast.Store) and isinstance(n.slice, ast.Name):
+            # a computed key: `key = 'traversal_parent' if flag else 'parent'; kwargs[key] = ...` (canonical form: one assignment
+            # of a constant per branch) -- each constant is stored under the condition of its assignment
+            if 'traversal_parent' not in (forwarding.branch_context(n) or ''):
+                for a in own_nodes(ce.node):
+                    if isinstance(a, ast.Assign) and len(a.targets) == 1 and isinstance(a.targets[0], ast.Name) and \
+                            a.targets[0].id == n.slice.id and isinstance(a.value, ast.Constant) and \
+                            a.value.value in ('parent', 'traversal_parent'):
+                        stores[a.value.value] = forwarding.branch_context(a)
         if isinstance(n, ast.Dict):
             for k in n.keys:
                 if isinstance(k, ast.Constant) and k.value in ('parent', 'traversal_parent'):
